@@ -18,6 +18,13 @@ theorem bnd {α β} (m : P α) (f : α → P β) (s : PState) :
 theorem pur {α} (a : α) (s : PState) : (pure a : P α) s = .ok a s := rfl
 theorem pure_bind_P {α β} (a : α) (f : α → P β) : ((pure a : P α) >>= f) = f a := rfl
 
+/-- optional expressions (the clauses of `for`) -/
+def ont : Option X → Nat | none => 0 | some e => e.ntoks
+def oflat : Option X → List Tk | none => [] | some e => e.flat
+def oval (n : Nat) : Option X → Val | none => .none | some e => e.val n
+def ofuel : Option X → Nat | none => 0 | some e => e.fuel
+def OWF (o : Option X) : Prop := ∀ e, o = some e → WFX 0 e
+
 mutual
 inductive S where
   | expr (e : X)
@@ -33,6 +40,9 @@ inductive S where
   | case_ (e : X) (s : S)
   | default_ (s : S)
   | switch_ (c : X) (b : S)
+  | for_ (i c n : Option X) (b : S)
+  | goto_ (x : String)
+  | label (x : String) (s : S)
 inductive SL where
   | nil
   | cons (s : S) (rest : SL)
@@ -54,6 +64,9 @@ def S.ntoks : S → Nat
   | .case_ e s => 1 + e.ntoks + 1 + s.ntoks
   | .default_ s => 2 + s.ntoks
   | .switch_ c b => 2 + c.ntoks + 1 + b.ntoks
+  | .for_ i c n b => 2 + ont i + 1 + ont c + 1 + ont n + 1 + b.ntoks
+  | .goto_ _ => 3
+  | .label _ s => 2 + s.ntoks
 def SL.ntoks : SL → Nat
   | .nil => 0
   | .cons s r => s.ntoks + r.ntoks
@@ -75,12 +88,15 @@ def S.flat : S → List Tk
   | .case_ e s => ("CASE", "case") :: (e.flat ++ ("COLON", ":") :: s.flat)
   | .default_ s => ("DEFAULT", "default") :: ("COLON", ":") :: s.flat
   | .switch_ c b => ("SWITCH", "switch") :: ("LPAREN", "(") :: (c.flat ++ ("RPAREN", ")") :: b.flat)
+  | .for_ i c n b => ("FOR", "for") :: ("LPAREN", "(") :: (oflat i ++ ("SEMI", ";") :: (oflat c ++ ("SEMI", ";") ::
+      (oflat n ++ ("RPAREN", ")") :: b.flat)))
+  | .goto_ x => [("GOTO", "goto"), ("ID", x), ("SEMI", ";")]
+  | .label x s => ("ID", x) :: ("COLON", ":") :: s.flat
 def SL.flat : SL → List Tk
   | .nil => []
   | .cons s r => s.flat ++ r.flat
 end
 
-def tc (n : Nat) : Option Coord := some ⟨"", n, some (n + 1)⟩
 
 mutual
 /-- the AST of the statement whose first token is at stream position `n` -/
@@ -101,6 +117,10 @@ def S.val (n : Nat) : S → Val
   | .case_ e s => mk .Case (tc n) [e.val (n + 1), .list [s.val (n + 1 + e.ntoks + 1)]]
   | .default_ s => mk .Default (tc n) [.list [s.val (n + 2)]]
   | .switch_ c b => mk .Switch (tc n) [c.val (n + 2), Spec.switchBodyV (b.val (n + 2 + c.ntoks + 1))]
+  | .for_ i c nx b => mk .For (tc n) [oval (n + 2) i, oval (n + 2 + ont i + 1) c, oval (n + 2 + ont i + 1 + ont c + 1) nx,
+      b.val (n + 2 + ont i + 1 + ont c + 1 + ont nx + 1)]
+  | .goto_ x => mk .Goto (tc n) [.str x]
+  | .label x s => mk .Label (tc n) [.str x, s.val (n + 2)]
 def SL.vals (n : Nat) : SL → List Val
   | .nil => []
   | .cons s r => s.val n :: SL.vals (n + s.ntoks) r
@@ -114,6 +134,8 @@ def S.openIf : S → Bool
   | .case_ _ s => s.openIf
   | .default_ s => s.openIf
   | .switch_ _ b => b.openIf
+  | .for_ _ _ _ b => b.openIf
+  | .label _ s => s.openIf
   | _ => false
 
 mutual
@@ -134,6 +156,9 @@ inductive WFS : S → Prop
   | case_ (e s) : WFX 2 e → WFS s → WFS (.case_ e s)
   | default_ (s) : WFS s → WFS (.default_ s)
   | switch_ (c b) : WFX 0 c → WFS b → WFS (.switch_ c b)
+  | for_ (i c n b) : OWF i → OWF c → OWF n → WFS b → WFS (.for_ i c n b)
+  | goto_ (x) : WFS (.goto_ x)
+  | label (x s) : WFS s → WFS (.label x s)
 inductive WFSL : SL → Prop
   | nil : WFSL .nil
   | cons (s r) : WFS s → WFSL r → WFSL (.cons s r)
@@ -202,16 +227,16 @@ theorem pcs_to_stmt (F : Nat) (s : PState) (k v : String) (toks : List Tk) (hs :
 
 theorem stopX_semi : StopX "SEMI" := ⟨⟨⟨⟨by decide, by decide⟩, by decide⟩, by decide⟩, by decide⟩
 
-theorem head_starts_expr (e : X) : ∃ t r, e.flat = t :: r ∧ inSet (some t.1) startsExpressionSet = true := by
-  obtain ⟨t, r, h, ht⟩ := FullExpr.flat_head e
-  refine ⟨t, r, h, ?_⟩
-  rcases ht with h' | h' <;> rw [h'] <;> decide
+theorem head_starts_expr {L : Nat} {e : X} (hw : WFX L e) :
+    ∃ t r, e.flat = t :: r ∧ inSet (some t.1) startsExpressionSet = true := by
+  obtain ⟨t, r, h, ht, _⟩ := FullExpr.flat_heads hw
+  exact ⟨t, r, h, (FullExpr.heads_facts _ ht).2.1⟩
 
 /-- an expression statement -/
 theorem exprStmt_ok (e : X) (hwf : WFX 0 e) (s : PState) (rest : List Tk)
     (hs : SeesT s (e.flat ++ ("SEMI", ";") :: rest)) (F : Nat) (hF : e.fuel ≤ F) :
     ∃ s', exprStmtM F s = .ok (e.val s.idx) s' ∧ SeesT s' rest ∧ s'.idx = s.idx + e.ntoks + 1 := by
-  obtain ⟨t, r, hfl, hst⟩ := head_starts_expr e
+  obtain ⟨t, r, hfl, hst⟩ := head_starts_expr hwf
   have hs0 : SeesT s (t :: (r ++ ("SEMI", ";") :: rest)) := by simpa [hfl] using hs
   obtain ⟨s1, h1, hs1, hi1, _⟩ := peekType_spec s _ hs0
   have hs1' : SeesT s1 (e.flat ++ ("SEMI", ";") :: rest) := by simpa [hfl] using hs1
@@ -252,39 +277,52 @@ def S.fuel : S → Nat
   | .case_ e s => e.fuel + s.fuel + 4
   | .default_ s => s.fuel + 4
   | .switch_ c b => c.fuel + b.fuel + 4
+  | .for_ i c n b => ofuel i + ofuel c + ofuel n + b.fuel + 5
+  | .goto_ _ => 3
+  | .label _ s => s.fuel + 4
 def SL.fuel : SL → Nat
   | .nil => 1
   | .cons s r => s.fuel + r.fuel + 2
 end
 
 def stmtHeads : List String :=
-  ["ID", "LPAREN", "SEMI", "LBRACE", "IF", "WHILE", "DO", "RETURN", "BREAK", "CONTINUE", "CASE", "DEFAULT", "SWITCH"]
+  exprHeads ++ ["SEMI", "LBRACE", "IF", "WHILE", "DO", "RETURN", "BREAK", "CONTINUE", "CASE", "DEFAULT", "SWITCH", "FOR", "GOTO"]
 
-theorem S.head : ∀ st : S, ∃ t r, st.flat = t :: r ∧ t.1 ∈ stmtHeads
-  | .expr e => by
-    obtain ⟨t, r, h, ht⟩ := FullExpr.flat_head e
-    refine ⟨t, r ++ [("SEMI", ";")], by simp [S.flat, h], ?_⟩
-    rcases ht with h' | h' <;> rw [h'] <;> decide
-  | .empty => ⟨_, _, rfl, by decide⟩
-  | .block _ => ⟨_, _, rfl, by decide⟩
-  | .ifThen .. => ⟨_, _, rfl, by decide⟩
-  | .ifElse .. => ⟨_, _, rfl, by decide⟩
-  | .while_ .. => ⟨_, _, rfl, by decide⟩
-  | .doWhile .. => ⟨_, _, rfl, by decide⟩
-  | .ret none => ⟨_, _, rfl, by decide⟩
-  | .ret (some _) => ⟨_, _, rfl, by decide⟩
-  | .brk => ⟨_, _, rfl, by decide⟩
-  | .cont => ⟨_, _, rfl, by decide⟩
-  | .case_ .. => ⟨_, _, rfl, by decide⟩
-  | .default_ .. => ⟨_, _, rfl, by decide⟩
-  | .switch_ .. => ⟨_, _, rfl, by decide⟩
+theorem S.head : ∀ st : S, WFS st → ∃ t r, st.flat = t :: r ∧ t.1 ∈ stmtHeads
+  | .expr e, hw => by
+    cases hw with
+    | expr _ hwe =>
+      obtain ⟨t, r, h, ht, _⟩ := FullExpr.flat_heads hwe
+      exact ⟨t, r ++ [("SEMI", ";")], by simp [S.flat, h], List.mem_append_left _ ht⟩
+  | .empty, _ => ⟨_, _, rfl, by decide⟩
+  | .block _, _ => ⟨_, _, rfl, by decide⟩
+  | .ifThen .., _ => ⟨_, _, rfl, by decide⟩
+  | .ifElse .., _ => ⟨_, _, rfl, by decide⟩
+  | .while_ .., _ => ⟨_, _, rfl, by decide⟩
+  | .doWhile .., _ => ⟨_, _, rfl, by decide⟩
+  | .ret none, _ => ⟨_, _, rfl, by decide⟩
+  | .ret (some _), _ => ⟨_, _, rfl, by decide⟩
+  | .brk, _ => ⟨_, _, rfl, by decide⟩
+  | .cont, _ => ⟨_, _, rfl, by decide⟩
+  | .case_ .., _ => ⟨_, _, rfl, by decide⟩
+  | .default_ .., _ => ⟨_, _, rfl, by decide⟩
+  | .switch_ .., _ => ⟨_, _, rfl, by decide⟩
+  | .for_ .., _ => ⟨_, _, rfl, by decide⟩
+  | .goto_ _, _ => ⟨_, _, rfl, by decide⟩
+  | .label .., _ => ⟨_, _, rfl, (by decide : "ID" ∈ stmtHeads)⟩
 
-theorem heads_facts (k : String) (h : k ∈ stmtHeads) :
+theorem stmtHeads_facts : ∀ k ∈ stmtHeads,
     k ≠ "PPPRAGMA" ∧ k ≠ "_PRAGMA" ∧ k ≠ "ELSE" ∧ k ≠ "RBRACE" ∧ inSet (some k) declStart = false ∧
-    (inSet (some k) startsStatementSet = true ∨ inSet (some k) startsExpressionSet = true) := by
-  simp only [stmtHeads, List.mem_cons, List.mem_nil_iff, or_false] at h
-  rcases h with rfl | rfl | rfl | rfl | rfl | rfl | rfl | rfl | rfl | rfl | rfl | rfl | rfl <;>
-    exact ⟨by decide, by decide, by decide, by decide, by decide, by decide⟩
+    (inSet (some k) startsStatementSet = true ∨ inSet (some k) startsExpressionSet = true) := by decide
+
+/-- an expression head that is not an identifier goes to the last branch of `_parse_statement` -/
+theorem exprHeads_dispatch : ∀ k ∈ exprHeads, (k == "LBRACE") = false ∧ (k == "IF" || k == "SWITCH") = false ∧
+    (k == "WHILE" || k == "DO" || k == "FOR") = false ∧ inSet (some k) ["GOTO", "BREAK", "CONTINUE", "RETURN"] = false ∧
+    (k == "PPPRAGMA" || k == "_PRAGMA") = false ∧ (k == "_STATIC_ASSERT") = false ∧ k ≠ "CASE" ∧ k ≠ "DEFAULT" ∧
+    k ≠ "SEMI" := by decide
+
+theorem oflat_length (o : Option X) : (oflat o).length = ont o := by
+  cases o <;> simp [oflat, ont, FullExpr.flat_length]
 
 mutual
 theorem S.flat_length : ∀ st : S, st.flat.length = st.ntoks
@@ -302,6 +340,9 @@ theorem S.flat_length : ∀ st : S, st.flat.length = st.ntoks
   | .case_ e st => by simp [S.flat, S.ntoks, FullExpr.flat_length, S.flat_length st]; omega
   | .default_ st => by simp [S.flat, S.ntoks, S.flat_length st]; omega
   | .switch_ c b => by simp [S.flat, S.ntoks, FullExpr.flat_length, S.flat_length b]; omega
+  | .for_ i c n b => by simp [S.flat, S.ntoks, oflat_length, S.flat_length b]; omega
+  | .goto_ _ => rfl
+  | .label _ st => by simp [S.flat, S.ntoks, S.flat_length st]; omega
 theorem SL.flat_length : ∀ l : SL, l.flat.length = l.ntoks
   | .nil => rfl
   | .cons s r => by simp [SL.flat, SL.ntoks, S.flat_length s, SL.flat_length r]
@@ -325,6 +366,9 @@ theorem S.val_node : ∀ (st : S) (n : Nat), ∃ c co fs, st.val n = .node c co 
   | .case_ .., _ => ⟨_, _, _, rfl⟩
   | .default_ .., _ => ⟨_, _, _, rfl⟩
   | .switch_ .., _ => ⟨_, _, _, rfl⟩
+  | .for_ .., _ => ⟨_, _, _, rfl⟩
+  | .goto_ _, _ => ⟨_, _, _, rfl⟩
+  | .label .., _ => ⟨_, _, _, rfl⟩
 
 /-- what the theorem says about one statement -/
 def SOK (st : S) : Prop :=
@@ -345,8 +389,8 @@ theorem body_ok (st : S) (h : SOK st) (s : PState) (rest : List Tk) (F : Nat) (h
     (hF : st.fuel + 1 ≤ F) :
     ∃ s', run F .pragmacompOrStatement s = .ok (st.val s.idx) s' ∧ SeesT s' rest ∧ s'.idx = s.idx + st.ntoks := by
   obtain ⟨G, rfl⟩ : ∃ G, F = G + 1 := ⟨F - 1, by omega⟩
-  obtain ⟨t, r, hfl, hth⟩ := S.head st
-  obtain ⟨hp1, hp2, _⟩ := heads_facts t.1 hth
+  obtain ⟨t, r, hfl, hth⟩ := S.head st hwf
+  obtain ⟨hp1, hp2, _⟩ := stmtHeads_facts t.1 hth
   have hs0 : SeesT s ((t.1, t.2) :: (r ++ rest)) := by simpa [hfl] using hs
   obtain ⟨s1, hs1, hi1, heq⟩ := pcs_to_stmt G s t.1 t.2 _ hs0 ⟨hp1, hp2⟩
   have hs1' : SeesT s1 (st.flat ++ rest) := by simpa [hfl] using hs1
@@ -362,47 +406,63 @@ theorem binop_not_colon (k : String) (p : Nat) (h : binPrec k = some p) : k ≠ 
 theorem assignop_not_colon (k : String) (h : k ∈ assignmentOps) : k ≠ "COLON" := by
   intro hk; subst hk; simp [assignmentOps] at h
 
+theorem id_second_app (l suf : List Tk) (t : Tk) (rs : List Tk) (hsuf : suf = t :: rs) (ht : t.1 ≠ "COLON")
+    (ih : ∀ x r, l = ("ID", x) :: r → r = [] ∨ ∃ t2 r2, r = t2 :: r2 ∧ t2.1 ≠ "COLON") (hne : l ≠ []) :
+    ∀ x r, l ++ suf = ("ID", x) :: r → r = [] ∨ ∃ t2 r2, r = t2 :: r2 ∧ t2.1 ≠ "COLON" := by
+  intro x r h
+  cases l with
+  | nil => exact absurd rfl hne
+  | cons a l' =>
+    simp only [List.cons_append, List.cons.injEq] at h
+    obtain ⟨rfl, rfl⟩ := h
+    rcases ih x l' rfl with h0 | ⟨t2, r2, h2, hne2⟩
+    · subst h0; subst hsuf; exact .inr ⟨t, rs, rfl, ht⟩
+    · subst h2; exact .inr ⟨t2, r2 ++ suf, rfl, hne2⟩
+
+theorem flat_ne_nil {L : Nat} {e : X} (h : WFX L e) : e.flat ≠ [] := by
+  obtain ⟨t, r, hfl, _⟩ := FullExpr.flat_heads h
+  rw [hfl]; exact List.cons_ne_nil _ _
+
+theorem mem_not_colon {k : String} {l : List String} (hk : k ∈ l) (hx : "COLON" ∉ l) : k ≠ "COLON" := by
+  intro h; subst h; exact hx hk
+
 /-- after a leading identifier of an expression comes nothing, or a token that is not `:` -/
-theorem id_second : ∀ (e : X) (L : Nat), WFX L e → ∀ x r, e.flat = ("ID", x) :: r →
-    r = [] ∨ ∃ t2 r2, r = t2 :: r2 ∧ t2.1 ≠ "COLON"
-  | .id _, _, _, x, r, h => by simp [X.flat] at h; exact .inl h.2
-  | .paren _, _, _, x, r, h => by simp [X.flat] at h
-  | .bin k v l r', L, hwf, x, r, h => by
-    cases hwf with
-    | bin _ p _ _ _ _ hp _ hl _ =>
-      obtain ⟨t, rl, hfl, _⟩ := FullExpr.flat_head l
-      simp only [X.flat, hfl, List.cons_append, List.cons.injEq] at h
-      obtain ⟨rfl, rfl⟩ := h
-      rcases id_second l _ hl x rl hfl with h0 | ⟨t2, r2, h2, hne⟩
-      · subst h0; simp only [List.nil_append]; exact .inr ⟨_, _, rfl, binop_not_colon k p hp⟩
-      · subst h2; simp only [List.cons_append]; exact .inr ⟨_, _, rfl, hne⟩
-  | .cond c t f, L, hwf, x, r, h => by
-    cases hwf with
-    | cond _ _ _ _ _ hc _ _ =>
-      obtain ⟨t', rl, hfl, _⟩ := FullExpr.flat_head c
-      simp only [X.flat, hfl, List.cons_append, List.cons.injEq] at h
-      obtain ⟨rfl, rfl⟩ := h
-      rcases id_second c _ hc x rl hfl with h0 | ⟨t2, r2, h2, hne⟩
-      · subst h0; simp only [List.nil_append]; exact .inr ⟨_, _, rfl, by decide⟩
-      · subst h2; simp only [List.cons_append]; exact .inr ⟨_, _, rfl, hne⟩
-  | .assign k v l r', L, hwf, x, r, h => by
-    cases hwf with
-    | assign _ _ _ _ _ _ hk hl _ =>
-      obtain ⟨t, rl, hfl, _⟩ := FullExpr.flat_head l
-      simp only [X.flat, hfl, List.cons_append, List.cons.injEq] at h
-      obtain ⟨rfl, rfl⟩ := h
-      rcases id_second l _ hl x rl hfl with h0 | ⟨t2, r2, h2, hne⟩
-      · subst h0; simp only [List.nil_append]; exact .inr ⟨_, _, rfl, assignop_not_colon k hk⟩
-      · subst h2; simp only [List.cons_append]; exact .inr ⟨_, _, rfl, hne⟩
-  | .comma a b, L, hwf, x, r, h => by
-    cases hwf with
-    | comma _ _ ha _ =>
-      obtain ⟨t, rl, hfl, _⟩ := FullExpr.flat_head a
-      simp only [X.flat, hfl, List.cons_append, List.cons.injEq] at h
-      obtain ⟨rfl, rfl⟩ := h
-      rcases id_second a _ ha x rl hfl with h0 | ⟨t2, r2, h2, hne⟩
-      · subst h0; simp only [List.nil_append]; exact .inr ⟨_, _, rfl, by decide⟩
-      · subst h2; simp only [List.cons_append]; exact .inr ⟨_, _, rfl, hne⟩
+theorem id_second {L : Nat} {e : X} (hwf : WFX L e) : ∀ x r, e.flat = ("ID", x) :: r →
+    r = [] ∨ ∃ t2 r2, r = t2 :: r2 ∧ t2.1 ≠ "COLON" := by
+  induction hwf with
+  | id L y => intro x r h; simp [X.flat] at h; exact .inl h.2
+  | const L k v t hc => intro x r h; simp [X.flat] at h; exact .inl h.2
+  | paren L e _ _ => intro x r h; simp [X.flat] at h
+  | pre L k v e _ hk _ _ =>
+    intro x r h; simp only [X.flat, List.cons.injEq, Prod.mk.injEq] at h
+    rw [h.1.1] at hk; exact absurd hk (by decide)
+  | szof L e _ _ _ => intro x r h; simp [X.flat] at h
+  | post L k v e _ hk hw ih =>
+    exact id_second_app e.flat _ (k, v) [] rfl (mem_not_colon hk (by decide)) ih (flat_ne_nil hw)
+  | index L e i _ hw _ ih _ =>
+    exact id_second_app e.flat _ ("LBRACKET", "[") _ rfl (by decide) ih (flat_ne_nil hw)
+  | member L k v e f _ hk hw ih =>
+    exact id_second_app e.flat _ (k, v) _ rfl (mem_not_colon hk (by decide)) ih (flat_ne_nil hw)
+  | call0 L f _ hw ih =>
+    exact id_second_app f.flat _ ("LPAREN", "(") _ rfl (by decide) ih (flat_ne_nil hw)
+  | call L f a _ hw _ ih _ =>
+    exact id_second_app f.flat _ ("LPAREN", "(") _ rfl (by decide) ih (flat_ne_nil hw)
+  | bin L p k v l r hp _ hl _ ihl _ =>
+    intro x r' h
+    exact id_second_app l.flat ((k, v) :: r.flat) (k, v) _ rfl (binop_not_colon k p hp) ihl (flat_ne_nil hl) x r'
+      (by simpa [X.flat, List.append_assoc] using h)
+  | cond L c t f _ hc _ _ ihc _ _ =>
+    intro x r' h
+    exact id_second_app c.flat (("CONDOP", "?") :: (t.flat ++ ("COLON", ":") :: f.flat)) ("CONDOP", "?") _ rfl (by decide)
+      ihc (flat_ne_nil hc) x r' (by simpa [X.flat, List.append_assoc] using h)
+  | assign L k v l r _ hk hl _ ihl _ =>
+    intro x r' h
+    exact id_second_app l.flat ((k, v) :: r.flat) (k, v) _ rfl (assignop_not_colon k hk) ihl (flat_ne_nil hl) x r'
+      (by simpa [X.flat, List.append_assoc] using h)
+  | comma a b ha _ iha _ =>
+    intro x r' h
+    exact id_second_app a.flat (("COMMA", ",") :: b.flat) ("COMMA", ",") _ rfl (by decide) iha (flat_ne_nil ha) x r'
+      (by simpa [X.flat, List.append_assoc] using h)
 
 theorem sok_expr (e : X) : SOK (.expr e) := by
   intro s rest F hwf hs _ hF
@@ -411,15 +471,15 @@ theorem sok_expr (e : X) : SOK (.expr e) := by
     obtain ⟨G, rfl⟩ : ∃ G, F = G + 1 := ⟨F - 1, by simp only [S.fuel] at hF; omega⟩
     simp only [S.fuel] at hF
     have hs0 : SeesT s (e.flat ++ ("SEMI", ";") :: rest) := by simpa [S.flat] using hs
-    obtain ⟨t, r, hfl, ht⟩ := FullExpr.flat_head e
+    obtain ⟨t, r, hfl, ht, _⟩ := FullExpr.flat_heads hwe
     -- reach the expression-statement branch
     have hreach : ∃ s1, SeesT s1 (e.flat ++ ("SEMI", ";") :: rest) ∧ s1.idx = s.idx ∧
         run (G + 1) .statement s = exprStmtM G s1 := by
-      rcases ht with hid | hlp
+      by_cases hid : t.1 = "ID"
       · obtain ⟨tk, tv⟩ := t
         simp only at hid; subst hid
         have h2 : ∃ t2 r2, r ++ ("SEMI", ";") :: rest = t2 :: r2 ∧ t2.1 ≠ "COLON" := by
-          rcases id_second e 0 hwe tv r hfl with h0 | ⟨t2, r2, h2, hne⟩
+          rcases id_second hwe tv r hfl with h0 | ⟨t2, r2, h2, hne⟩
           · subst h0; exact ⟨("SEMI", ";"), rest, rfl, by decide⟩
           · subst h2; exact ⟨t2, r2 ++ ("SEMI", ";") :: rest, by simp, hne⟩
         obtain ⟨t2, r2, he2, hne⟩ := h2
@@ -427,11 +487,12 @@ theorem sok_expr (e : X) : SOK (.expr e) := by
         obtain ⟨s1, hs1', hi1, heq⟩ := stmt_id_head G s tv t2 r2 hs1 hne
         exact ⟨s1, by simpa [hfl, he2] using hs1', hi1, heq⟩
       · obtain ⟨tk, tv⟩ := t
-        simp only at hlp; subst hlp
-        have hs1 : SeesT s (("LPAREN", tv) :: (r ++ ("SEMI", ";") :: rest)) := by simpa [hfl] using hs0
-        obtain ⟨s1, hs1', hi1, heq⟩ := stmt_head G s "LPAREN" tv _ hs1 ⟨by decide, by decide, by decide⟩
+        simp only at hid ht
+        obtain ⟨d1, d2, d3, d4, d5, d6, d7, d8, _⟩ := exprHeads_dispatch tk ht
+        have hs1 : SeesT s ((tk, tv) :: (r ++ ("SEMI", ";") :: rest)) := by simpa [hfl] using hs0
+        obtain ⟨s1, hs1', hi1, heq⟩ := stmt_head G s tk tv _ hs1 ⟨d7, d8, hid⟩
         refine ⟨s1, by simpa [hfl] using hs1', hi1, ?_⟩
-        rw [heq]; simp [inSet]
+        rw [heq]; simp only [d1, d2, d3, d4, d5, d6, Bool.false_eq_true, ↓reduceIte]
     obtain ⟨s1, hs1, hi1, heq⟩ := hreach
     obtain ⟨s2, h2, hs2, hi2⟩ := exprStmt_ok e hwe s1 rest hs1 G (by omega)
     exact ⟨s2, by rw [heq, h2, hi1]; rfl, hs2, by simp only [S.ntoks]; omega⟩
@@ -493,11 +554,12 @@ theorem sok_ret_some (e : X) : SOK (.ret (some e)) := by
     have hs0 : SeesT s (("RETURN", "return") :: (e.flat ++ ("SEMI", ";") :: rest)) := by simpa [S.flat] using hs
     obtain ⟨s1, hs1, hi1, heq⟩ := stmt_head (G + 1) s "RETURN" "return" _ hs0 ⟨by decide, by decide, by decide⟩
     obtain ⟨s2, h2, hs2, _, hi2, _⟩ := advance_spec s1 "RETURN" "return" _ hs1
-    obtain ⟨t, r, hfl, ht⟩ := FullExpr.flat_head e
+    obtain ⟨t, r, hfl, ht, _⟩ := FullExpr.flat_heads hwe
     have hne : ∀ k v r', e.flat ++ ("SEMI", ";") :: rest = (k, v) :: r' → k ≠ "SEMI" := by
       intro k v r' h
       rw [hfl] at h; simp only [List.cons_append, List.cons.injEq] at h
-      rcases ht with h' | h' <;> (rw [h.1] at h'; simp only at h'; rw [h']; decide)
+      have := (FullExpr.heads_facts _ ht).2.2.2.1
+      rw [h.1] at this; exact this
     obtain ⟨s3, h3, hs3, hi3⟩ := accept_other s2 _ "SEMI" hs2 hne
     obtain ⟨s4, h4, hs4, hi4⟩ := parse_full e hwe s3 ("SEMI", ";") rest stopX_semi hs3 G (by omega)
     obtain ⟨s5, h5, hs5, hi5⟩ := expect_same s4 "SEMI" ";" rest hs4
@@ -620,15 +682,15 @@ theorem sok_doWhile (b : S) (c : X) (ihb : SOK b) : SOK (.doWhile b c) := by
     simp [pIterationStatement, bnd, h2, h3, h4, h5, h6, h7, h8, pur, tokCoord, tc, hi1, S.val]
 
 
-theorem SL.head_not_else (l : SL) (rest : List Tk) :
+theorem SL.head_not_else (l : SL) (hwl : WFSL l) (rest : List Tk) :
     ∀ k v r, l.flat ++ ("RBRACE", "}") :: rest = (k, v) :: r → k ≠ "ELSE" := by
   intro k v r h
-  cases l with
+  cases hwl with
   | nil => simp only [SL.flat, List.nil_append, List.cons.injEq, Prod.mk.injEq] at h; rw [← h.1.1]; decide
-  | cons st l' =>
-    obtain ⟨t, r', hfl, hth⟩ := S.head st
+  | cons st l' hws _ =>
+    obtain ⟨t, r', hfl, hth⟩ := S.head st hws
     simp only [SL.flat, hfl, List.cons_append, List.append_assoc, List.cons.injEq] at h
-    have := (heads_facts t.1 hth).2.2.1
+    have := (stmtHeads_facts t.1 hth).2.2.1
     rw [h.1] at this; exact this
 
 theorem slok_nil : SLOK .nil := by
@@ -646,15 +708,15 @@ theorem slok_cons (st : S) (r : SL) (ihs : SOK st) (ihr : SLOK r) : SLOK (.cons 
   | cons _ _ hws hwr =>
     obtain ⟨G, rfl⟩ : ∃ G, F = G + 1 := ⟨F - 1, by simp only [SL.fuel] at hF; omega⟩
     simp only [SL.fuel] at hF
-    obtain ⟨t, r', hfl, hth⟩ := S.head st
-    obtain ⟨_, _, _, hnr, hnd, _⟩ := heads_facts t.1 hth
+    obtain ⟨t, r', hfl, hth⟩ := S.head st hws
+    obtain ⟨_, _, _, hnr, hnd, _⟩ := stmtHeads_facts t.1 hth
     have hs0 : SeesT s (st.flat ++ (r.flat ++ ("RBRACE", "}") :: rest)) := by
       simpa [SL.flat, List.append_assoc] using hs
     have hs0' : SeesT s ((t.1, t.2) :: (r' ++ (r.flat ++ ("RBRACE", "}") :: rest))) := by simpa [hfl] using hs0
     obtain ⟨s1, h1, hs1, hi1, _⟩ := peekType_spec s _ hs0'
     obtain ⟨s2, h2, hs2, hi2, _⟩ := peekType_spec s1 _ hs1
     have hs2' : SeesT s2 (st.flat ++ (r.flat ++ ("RBRACE", "}") :: rest)) := by simpa [hfl] using hs2
-    obtain ⟨s3, h3, hs3, hi3⟩ := ihs s2 _ G hws hs2' (fun _ => SL.head_not_else r rest) (by omega)
+    obtain ⟨s3, h3, hs3, hi3⟩ := ihs s2 _ G hws hs2' (fun _ => SL.head_not_else r hwr rest) (by omega)
     obtain ⟨s4, h4, hs4, hi4⟩ := ihr (acc ++ [st.val s2.idx]) s3 rest G hwr hs3 (by omega)
     refine ⟨s4, ?_, hs4, by simp only [SL.ntoks]; omega⟩
     obtain ⟨c, co, fs, hv⟩ := S.val_node st s2.idx
@@ -686,8 +748,9 @@ theorem sok_block (items : SL) (ih : SLOK items) : SOK (.block items) := by
       show pCompoundStatement (run G) s1 = _
       simp [pCompoundStatement, bnd, h2, h3, pur, tokCoord, tc, hi1, S.val]
     | cons st r =>
-      obtain ⟨t, r', hfl, hth⟩ := S.head st
-      have hnr := (heads_facts t.1 hth).2.2.2.1
+      have hws : WFS st := by cases hwi with | cons _ _ h _ => exact h
+      obtain ⟨t, r', hfl, hth⟩ := S.head st hws
+      have hnr := (stmtHeads_facts t.1 hth).2.2.2.1
       obtain ⟨s3, h3, hs3, hi3⟩ := accept_other s2 _ "RBRACE" hs2 (by
         intro k v r'' h
         simp only [SL.flat, hfl, List.cons_append, List.append_assoc, List.cons.injEq] at h
@@ -716,8 +779,8 @@ theorem label_body (st : S) (h : SOK st) (tok : PTok) (s : PState) (rest : List 
     (hs : SeesT s (st.flat ++ rest)) (hel : st.openIf = true → ∀ k v r, rest = (k, v) :: r → k ≠ "ELSE")
     (hF : st.fuel + 1 ≤ F) :
     ∃ s', labelBody (run F) tok s = .ok (st.val s.idx) s' ∧ SeesT s' rest ∧ s'.idx = s.idx + st.ntoks := by
-  obtain ⟨t, r, hfl, hth⟩ := S.head st
-  obtain ⟨_, _, _, _, _, hstart⟩ := heads_facts t.1 hth
+  obtain ⟨t, r, hfl, hth⟩ := S.head st hwf
+  obtain ⟨_, _, _, _, _, hstart⟩ := stmtHeads_facts t.1 hth
   have hs0 : SeesT s ((t.1, t.2) :: (r ++ rest)) := by simpa [hfl] using hs
   -- `_starts_statement()` is true, in a state that still sees the statement
   have hst : ∃ s1, startsStatement s = .ok true s1 ∧ SeesT s1 (st.flat ++ rest) ∧ s1.idx = s.idx := by
@@ -785,13 +848,10 @@ theorem sok_default (st : S) (ih : SOK st) : SOK (.default_ st) := by
 
 open PycModel.Spec PycModel.SwitchRefine in
 /-- expression ASTs are never `case` / `default` nodes -/
-theorem xval_not_label : ∀ (e : X) (n : Nat), isLabelV (e.val n) = false
-  | .id _, _ => rfl
-  | .paren e, n => xval_not_label e (n + 1)
-  | .bin .., _ => rfl
-  | .cond .., _ => rfl
-  | .assign .., _ => rfl
-  | .comma .., _ => rfl
+theorem xval_not_label (e : X) : ∀ n : Nat, isLabelV (e.val n) = false := by
+  induction e with
+  | paren e ih => intro n; exact ih (n + 1)
+  | _ => intro n; rfl
 
 open PycModel.Spec PycModel.SwitchRefine in
 /-- every `case` / `default` statement the parser builds is a label chain (the hypothesis of the
@@ -810,6 +870,9 @@ theorem sval_shape : ∀ (st : S) (n : Nat), isLabelV (st.val n) = true → ∃ 
   | .brk, _, h => by cases h
   | .cont, _, h => by cases h
   | .switch_ .., _, h => by cases h
+  | .for_ .., _, h => by cases h
+  | .goto_ _, _, h => by cases h
+  | .label .., _, h => by cases h
   | .case_ e st, n, _ => by
     cases hl : isLabelV (st.val (n + 1 + e.ntoks + 1)) with
     | false => exact ⟨1, .caseLeaf _ _ _ hl⟩
@@ -833,13 +896,10 @@ theorem svals_shaped : ∀ (l : SL) (n : Nat), ParserShaped (SL.vals n l)
     · exact sval_shape st n hl
     · exact svals_shaped r _ v hv hl
 
-theorem xval_not_compound : ∀ (e : X) (n : Nat), (e.val n).isCls .Compound = false
-  | .id _, _ => rfl
-  | .paren e, n => xval_not_compound e (n + 1)
-  | .bin .., _ => rfl
-  | .cond .., _ => rfl
-  | .assign .., _ => rfl
-  | .comma .., _ => rfl
+theorem xval_not_compound (e : X) : ∀ n : Nat, (e.val n).isCls .Compound = false := by
+  induction e with
+  | paren e ih => intro n; exact ih (n + 1)
+  | _ => intro n; rfl
 
 open PycModel.Spec PycModel.SwitchRefine in
 /-- `fix_switch_cases` on the `Switch` node the parser has just built -/
@@ -862,6 +922,9 @@ theorem fixSwitch_sval (co : Option Coord) (cond : Val) (b : S) (n : Nat) (s : P
   | case_ _ _ => exact fixSwitch_other co cond _ rfl s
   | default_ _ => exact fixSwitch_other co cond _ rfl s
   | switch_ _ _ => exact fixSwitch_other co cond _ rfl s
+  | for_ _ _ _ _ => exact fixSwitch_other co cond _ rfl s
+  | goto_ _ => exact fixSwitch_other co cond _ rfl s
+  | label _ _ => exact fixSwitch_other co cond _ rfl s
 
 theorem sok_switch (c : X) (b : S) (ihb : SOK b) : SOK (.switch_ c b) := by
   intro s rest F hwf hs hel hF
@@ -888,6 +951,129 @@ theorem sok_switch (c : X) (b : S) (ihb : SOK b) : SOK (.switch_ c b) := by
     rw [e1]
     exact hfix
 
+/-! ## `for`, `goto`, identifier labels -/
+
+theorem stopX_semi' : StopX ("SEMI", ";").1 := stopX_semi
+
+/-- an optional expression followed by `;` or `)` -/
+theorem exprOpt_ok (o : Option X) (hw : OWF o) (s : PState) (stop : Tk) (rest : List Tk)
+    (hstop : stop.1 = "SEMI" ∨ stop.1 = "RPAREN") (hs : SeesT s (oflat o ++ stop :: rest)) (F : Nat) (hF : ofuel o ≤ F) :
+    ∃ s', exprOpt (run F) s = .ok (oval s.idx o) s' ∧ SeesT s' (stop :: rest) ∧ s'.idx = s.idx + ont o := by
+  have hsx : StopX stop.1 := by
+    rcases hstop with h | h
+    · rw [h]; exact stopX_semi
+    · rw [h]; exact stopX_rparen
+  cases o with
+  | none =>
+    obtain ⟨k, v⟩ := stop
+    have hs0 : SeesT s ((k, v) :: rest) := by simpa [oflat] using hs
+    obtain ⟨s1, h1, hs1, hi1, _⟩ := peekType_spec s _ hs0
+    have hns : inSet (some k) startsExpressionSet = false := by
+      simp only at hstop; rcases hstop with h | h <;> rw [h] <;> decide
+    exact ⟨s1, by simp [exprOpt, startsExpression, bnd, h1, hns, pur, oval], hs1, by simpa [ont] using hi1⟩
+  | some e =>
+    have hwe := hw e rfl
+    have hs0 : SeesT s (e.flat ++ stop :: rest) := by simpa [oflat] using hs
+    obtain ⟨t, r, hfl, hst⟩ := head_starts_expr hwe
+    have hs0' : SeesT s (t :: (r ++ stop :: rest)) := by simpa [hfl] using hs0
+    obtain ⟨s1, h1, hs1, hi1, _⟩ := peekType_spec s _ hs0'
+    have hs1' : SeesT s1 (e.flat ++ stop :: rest) := by simpa [hfl] using hs1
+    obtain ⟨s2, h2, hs2, hi2⟩ := parse_full e hwe s1 stop rest hsx hs1' F (by simpa [ofuel] using hF)
+    rw [hi1] at h2
+    exact ⟨s2, by simp [exprOpt, startsExpression, bnd, h1, hst, h2, oval, pur], hs2, by simp only [ont]; omega⟩
+
+/-- the first token of an optional expression followed by `;` starts no declaration -/
+theorem oflat_semi_head (o : Option X) (hw : OWF o) (rest : List Tk) :
+    ∃ t r, oflat o ++ ("SEMI", ";") :: rest = t :: r ∧ inSet (some t.1) declStart = false := by
+  cases o with
+  | none => exact ⟨("SEMI", ";"), rest, rfl, by decide⟩
+  | some e =>
+    obtain ⟨t, r, hfl, ht, _⟩ := FullExpr.flat_heads (hw e rfl)
+    exact ⟨t, r ++ ("SEMI", ";") :: rest, by simp [oflat, hfl], (FullExpr.heads_facts _ ht).1⟩
+
+theorem sok_for (i c n : Option X) (b : S) (ihb : SOK b) : SOK (.for_ i c n b) := by
+  intro s rest F hwf hs hel hF
+  cases hwf with
+  | for_ _ _ _ _ hwi hwc hwn hwb =>
+    obtain ⟨G, rfl⟩ : ∃ G, F = G + 2 := ⟨F - 2, by simp only [S.fuel] at hF; omega⟩
+    simp only [S.fuel] at hF
+    have hs0 : SeesT s (("FOR", "for") :: ("LPAREN", "(") :: (oflat i ++ ("SEMI", ";") :: (oflat c ++ ("SEMI", ";") ::
+        (oflat n ++ ("RPAREN", ")") :: (b.flat ++ rest))))) := by
+      simpa [S.flat, List.append_assoc] using hs
+    obtain ⟨s1, hs1, hi1, heq⟩ := stmt_head (G + 1) s "FOR" "for" _ hs0 ⟨by decide, by decide, by decide⟩
+    obtain ⟨s2, h2, hs2, _, hi2, _⟩ := advance_spec s1 "FOR" "for" _ hs1
+    obtain ⟨s3, h3, hs3, hi3⟩ := expect_same s2 "LPAREN" "(" _ hs2
+    obtain ⟨t, r, hhd, hnd⟩ := oflat_semi_head i hwi (oflat c ++ ("SEMI", ";") :: (oflat n ++ ("RPAREN", ")") :: (b.flat ++ rest)))
+    rw [hhd] at hs3
+    obtain ⟨s4, h4, hs4, hi4, _⟩ := peekType_spec s3 _ hs3
+    rw [← hhd] at hs4
+    obtain ⟨s5, h5, hs5, hi5⟩ := exprOpt_ok i hwi s4 ("SEMI", ";") _ (.inl rfl) hs4 G (by omega)
+    obtain ⟨s6, h6, hs6, hi6⟩ := expect_same s5 "SEMI" ";" _ hs5
+    obtain ⟨s7, h7, hs7, hi7⟩ := exprOpt_ok c hwc s6 ("SEMI", ";") _ (.inl rfl) hs6 G (by omega)
+    obtain ⟨s8, h8, hs8, hi8⟩ := expect_same s7 "SEMI" ";" _ hs7
+    obtain ⟨s9, h9, hs9, hi9⟩ := exprOpt_ok n hwn s8 ("RPAREN", ")") _ (.inr rfl) hs8 G (by omega)
+    obtain ⟨s10, h10, hs10, hi10⟩ := expect_same s9 "RPAREN" ")" _ hs9
+    obtain ⟨s11, h11, hs11, hi11⟩ := body_ok b ihb s10 rest G hwb hs10 (fun ho => hel (by simpa [S.openIf] using ho)) (by omega)
+    refine ⟨s11, ?_, hs11, by simp only [S.ntoks]; omega⟩
+    have e4 : s4.idx = s.idx + 2 := by omega
+    have e6 : s6.idx = s.idx + 2 + ont i + 1 := by omega
+    have e8 : s8.idx = s.idx + 2 + ont i + 1 + ont c + 1 := by omega
+    have e10 : s10.idx = s.idx + 2 + ont i + 1 + ont c + 1 + ont n + 1 := by omega
+    rw [e4] at h5; rw [e6] at h7; rw [e8] at h9; rw [e10] at h11
+    rw [heq]
+    simp [inSet]
+    show pIterationStatement (run G) s1 = _
+    simp [pIterationStatement, bnd, h2, h3, startsDeclaration, h4, hnd, h5, h6, h7, h8, h9, h10, h11, pur, tokCoord, tc,
+      hi1, S.val]
+
+theorem sok_goto (x : String) : SOK (.goto_ x) := by
+  intro s rest F _ hs _ hF
+  obtain ⟨G, rfl⟩ : ∃ G, F = G + 2 := ⟨F - 2, by simp only [S.fuel] at hF; omega⟩
+  have hs0 : SeesT s (("GOTO", "goto") :: ("ID", x) :: ("SEMI", ";") :: rest) := by simpa [S.flat] using hs
+  obtain ⟨s1, hs1, hi1, heq⟩ := stmt_head (G + 1) s "GOTO" "goto" _ hs0 ⟨by decide, by decide, by decide⟩
+  obtain ⟨s2, h2, hs2, _, hi2, _⟩ := advance_spec s1 "GOTO" "goto" _ hs1
+  obtain ⟨s3, h3, hs3, hi3⟩ := expect_same s2 "ID" x _ hs2
+  obtain ⟨s4, h4, hs4, hi4⟩ := expect_same s3 "SEMI" ";" rest hs3
+  refine ⟨s4, ?_, hs4, by simp only [S.ntoks]; omega⟩
+  rw [heq]
+  simp [inSet]
+  show pJumpStatement (run G) s1 = _
+  simp [pJumpStatement, bnd, h2, h3, h4, pur, tokCoord, tc, hi1, S.val]
+
+/-- `_parse_statement` on `identifier :` -/
+theorem stmt_idlabel_head (F : Nat) (s : PState) (x : String) (toks : List Tk)
+    (hs : SeesT s (("ID", x) :: ("COLON", ":") :: toks)) :
+    ∃ s1, SeesT s1 (("ID", x) :: ("COLON", ":") :: toks) ∧ s1.idx = s.idx ∧
+      run (F + 1) .statement s = run F .labeledStatement s1 := by
+  obtain ⟨s1, h1, hs1, hi1, _⟩ := peekType_spec s _ hs
+  obtain ⟨s2, hp2, hs2, _, hi2, _⟩ := peekK_spec 1 s1 _ ("COLON", ":") hs1 rfl
+  refine ⟨s2, hs2, by omega, ?_⟩
+  show pStatement (run F) s = _
+  simp only [pStatement, bnd, h1, List.head?_cons, Option.map_some, andM, pur]
+  simp [pure_bind_P, peek2Is, peekType2, bnd, hp2, pur]
+
+theorem sok_label (x : String) (st : S) (ih : SOK st) : SOK (.label x st) := by
+  intro s rest F hwf hs hel hF
+  cases hwf with
+  | label _ _ hws =>
+    obtain ⟨G, rfl⟩ : ∃ G, F = G + 2 := ⟨F - 2, by simp only [S.fuel] at hF; omega⟩
+    simp only [S.fuel] at hF
+    have hs0 : SeesT s (("ID", x) :: ("COLON", ":") :: (st.flat ++ rest)) := by
+      simpa [S.flat, List.append_assoc] using hs
+    obtain ⟨s1, hs1, hi1, heq⟩ := stmt_idlabel_head (G + 1) s x _ hs0
+    obtain ⟨s2, h2, hs2, hi2, _⟩ := peekType_spec s1 _ hs1
+    obtain ⟨s3, h3, hs3, _, hi3, _⟩ := advance_spec s2 "ID" x _ hs2
+    obtain ⟨s5, h5, hs5, hi5⟩ := expect_same s3 "COLON" ":" _ hs3
+    obtain ⟨s6, h6, hs6, hi6⟩ := label_body st ih ⟨"ID", x, s2.idx⟩ s5 rest G hws hs5
+      (fun ho => hel (by simpa [S.openIf] using ho)) (by omega)
+    refine ⟨s6, ?_, hs6, by simp only [S.ntoks]; omega⟩
+    have e5 : s5.idx = s.idx + 2 := by omega
+    have e2 : s2.idx = s.idx := by omega
+    rw [e5, e2] at h6
+    rw [heq]
+    show pLabeledStatement (run G) s1 = _
+    simp [pLabeledStatement, bnd, h2, h3, h5, h6, pur, tokCoord, tc, hi1, hi2, S.val]
+
 mutual
 theorem all_s : ∀ st : S, SOK st
   | .expr e => sok_expr e
@@ -904,6 +1090,9 @@ theorem all_s : ∀ st : S, SOK st
   | .case_ e st => sok_case e st (all_s st)
   | .default_ st => sok_default st (all_s st)
   | .switch_ c b => sok_switch c b (all_s b)
+  | .for_ i c n b => sok_for i c n b (all_s b)
+  | .goto_ x => sok_goto x
+  | .label x st => sok_label x st (all_s st)
 theorem all_sl : ∀ l : SL, SLOK l
   | .nil => slok_nil
   | .cons st r => slok_cons st r (all_s st) (all_sl r)
@@ -917,5 +1106,45 @@ theorem parse_stmt (st : S) (hwf : WFS st) (s : PState) (rest : List Tk) (hs : S
     (hel : st.openIf = true → ∀ k v r, rest = (k, v) :: r → k ≠ "ELSE") (F : Nat) (hF : st.fuel ≤ F) :
     ∃ s', run F .statement s = .ok (st.val s.idx) s' ∧ SeesT s' rest ∧ s'.idx = s.idx + st.ntoks :=
   all_s st s rest F hwf hs hel hF
+
+theorem ofuel_linear (o : Option X) : ofuel o ≤ 13 * ont o := by
+  cases o with
+  | none => simp [ofuel, ont]
+  | some e => exact FullExpr.fuel_linear e
+
+mutual
+/-- the fuel the theorem asks for is linear in the number of tokens -/
+theorem S.fuel_linear : ∀ st : S, st.fuel + 2 ≤ 13 * st.ntoks
+  | .expr e => by have := FullExpr.fuel_linear e; simp only [S.fuel, S.ntoks]; omega
+  | .empty => by simp [S.fuel, S.ntoks]
+  | .block items => by have := SL.fuel_linear items; simp only [S.fuel, S.ntoks]; omega
+  | .ifThen c t => by
+    have := FullExpr.fuel_linear c; have := S.fuel_linear t; simp only [S.fuel, S.ntoks]; omega
+  | .ifElse c t f => by
+    have := FullExpr.fuel_linear c; have := S.fuel_linear t; have := S.fuel_linear f
+    simp only [S.fuel, S.ntoks]; omega
+  | .while_ c b => by
+    have := FullExpr.fuel_linear c; have := S.fuel_linear b; simp only [S.fuel, S.ntoks]; omega
+  | .doWhile b c => by
+    have := FullExpr.fuel_linear c; have := S.fuel_linear b; simp only [S.fuel, S.ntoks]; omega
+  | .ret none => by simp [S.fuel, S.ntoks]
+  | .ret (some e) => by have := FullExpr.fuel_linear e; simp only [S.fuel, S.ntoks]; omega
+  | .brk => by simp [S.fuel, S.ntoks]
+  | .cont => by simp [S.fuel, S.ntoks]
+  | .case_ e st => by
+    have := FullExpr.fuel_linear e; have := S.fuel_linear st; simp only [S.fuel, S.ntoks]; omega
+  | .default_ st => by have := S.fuel_linear st; simp only [S.fuel, S.ntoks]; omega
+  | .switch_ c b => by
+    have := FullExpr.fuel_linear c; have := S.fuel_linear b; simp only [S.fuel, S.ntoks]; omega
+  | .for_ i c n b => by
+    have := ofuel_linear i; have := ofuel_linear c; have := ofuel_linear n; have := S.fuel_linear b
+    simp only [S.fuel, S.ntoks]; omega
+  | .goto_ _ => by simp [S.fuel, S.ntoks]
+  | .label _ st => by have := S.fuel_linear st; simp only [S.fuel, S.ntoks]; omega
+theorem SL.fuel_linear : ∀ l : SL, l.fuel ≤ 13 * l.ntoks + 1
+  | .nil => by simp [SL.fuel, SL.ntoks]
+  | .cons st r => by
+    have := S.fuel_linear st; have := SL.fuel_linear r; simp only [SL.fuel, SL.ntoks]; omega
+end
 
 end PycModel.StmtSkel
